@@ -8,7 +8,11 @@ RULE = ("Small curves: every element pair of F_p and every point pair of y^2=x^3
         "small primes incl. curves with 2-torsion (p=11, (5,0)); F_p exponent sweep incl. 0, p-1, negative. "
         "secp256k1: boundary scalars 0,1,2,n-1,n,n+1,-1,-n,2^256,2^256+k, near 2^128/2^255 plus random ones, "
         "equal/opposite/infinity operands, every prefix byte 0..255 over sampled x (valid x, x not on curve, x>=p), "
-        "lengths 0..70, truncations and bit flips of valid encodings.")
+        "lengths 0..70, truncations and bit flips of valid encodings. The library's own == / != on every pair of "
+        "F_p, every point pair of small curves, secp points sharing exactly one coordinate (P / -P, P / beta*P), "
+        "infinity, operands of two fields / two curves (a only, b only), half-defined points (one coordinate None), "
+        "F_p powers against repeated multiplication, scalars between n and p, points ground for particular "
+        "encoding bytes, S256Point.combine.")
 TRUSTED = ["Python int arithmetic and pow(b,e,m) (modelled by Z and square-and-multiply modpow)",
            "the harness's own reference code: affine reference over ints for small curves, Jacobian-coordinate "
            "secp256k1 implementation (independent of buidl) for scalar multiplication / addition"]
@@ -16,7 +20,9 @@ ASSUMPTIONS = ["y^2 = x^3 + 7 is singular over F_3 and F_7 (discriminant -2^4*3^
                "is checked, the group laws are checked for every other prime in [5,101]",
                "generic Point.__rmul__ is exercised with coefficient >= 0 only (a negative one loops forever in "
                "Python; S256Point reduces mod N first)",
-               "small-curve sweeps are over FieldElement operands of one field (mixed-field TypeError not modelled)"]
+               "small-curve correspondence sweeps are over FieldElement operands of one field (the mixed-field / mixed-curve "
+               "TypeError and the == / != operators are not in the Coq model; they are checked by the predicates "
+               "fe_eq / pt_eq_small / s256_eq on the implementation)"]
 BUDGET_S = {"quick": 170, "thorough": 1700}
 
 P = pecc.P
@@ -80,6 +86,29 @@ IMPL = {
     "s_parse_xonly": lambda C, b: _out(S256Point.parse_xonly(b)),
     "s_parse": lambda C, b: _out(S256Point.parse(b)),
 }
+
+
+# An entry point that did not terminate twice (the engine's per-call alarm fired) is not called a third time: every
+# later call fails at once.  The hang itself is already recorded as a disagreement with the model; without this a
+# non-terminating loop (e.g. `while coef` turned around in Point.__rmul__) costs one 60 s alarm per case AND per
+# shrinking candidate, and the check does not finish in any reasonable time.  Never active on a tree that terminates.
+_HANGS = {}
+
+
+def _hang_memo(name, f):
+    def g(*args):
+        if _HANGS.get(name, 0) >= 2:
+            raise RuntimeError(f"{name}: the implementation did not terminate on earlier calls")
+        try:
+            return f(*args)
+        except Exception as e:  # noqa
+            if type(e).__name__ == "ImplTimeout":
+                _HANGS[name] = _HANGS.get(name, 0) + 1
+            raise
+    return g
+
+
+IMPL = {k_: _hang_memo(k_, f_) for k_, f_ in IMPL.items()}
 
 # ---------------------------------------------------------------- independent references (ints only)
 
@@ -382,11 +411,32 @@ def p_sec_rt(k):
     A = j_mul(k, (GX, GY))
     if A is None:
         return None
+    return _sec_rt(A)
+
+
+def p_sec_rt_xy(x, y):
+    """the same for a curve point given by its coordinates (constructed / ground points: leading zero bytes in x or
+    y, top byte 0x80 / 0xff, tiny coordinates)"""
+    if not on_secp((x, y)):
+        return "harness: not a curve point"
+    return _sec_rt((x, y))
+
+
+def _sec_rt(A):
     pt = S256Point(A[0], A[1])
     xb, yb = A[0].to_bytes(32, "big"), A[1].to_bytes(32, "big")
     c, u, xo = pt.sec(True), pt.sec(False), pt.xonly()
     if c != bytes([2 + (A[1] & 1)]) + xb or u != b"\x04" + xb + yb or xo != xb:
         return "encoding layout differs from SEC1 / BIP340"
+    if pt.sec() != c or pt.sec(compressed=True) != c or pt.sec(compressed=False) != u:
+        return "sec() with the argument left out / given by keyword is not the compressed / requested form"
+    # the 64-digit hex text of a coordinate and the diagnostic text of the point (used in error messages)
+    if pt.x.hex() != xb.hex() or pt.y.hex() != yb.hex() or S256Field(A[1]).hex() != yb.hex():
+        return f"S256Field.hex() of a coordinate is {pt.x.hex()!r} / {pt.y.hex()!r}, not the 64-digit hex number"
+    txt = _outcome(lambda: (repr(pt), repr(S256Point(None, None)), repr(pt.x)))
+    if txt[0] != "ok" or c.hex() not in txt[1][0] or "infinity" in txt[1][0] or "infinity" not in txt[1][1] \
+            or txt[1][2] != xb.hex():
+        return f"repr of the point / of infinity / of its x coordinate: {txt}"
     for enc in (c, u):
         for f in (S256Point.parse, S256Point.parse_sec):
             if _tup(f(enc)) != A:
@@ -417,7 +467,9 @@ def _parse_res(f, b):
     something that is not a point instead of raising"""
     try:
         pt = f(b)
-    except Exception:  # noqa
+    except Exception as e:  # noqa
+        if type(e).__name__ == "ImplTimeout":
+            raise               # the engine's watchdog: a decoder that does not terminate is not a rejection
         return "reject"
     if not isinstance(pt, S256Point):
         return ("returned", repr(pt)[:40])
@@ -607,7 +659,9 @@ def p_parse_history(encs):
             for nm, f in fns:
                 try:
                     got = ("pt", _tup(f(b)))
-                except Exception:  # noqa
+                except Exception as e:  # noqa
+                    if type(e).__name__ == "ImplTimeout":
+                        raise
                     got = "reject"
                 if got != want:
                     return f"round {rnd} call {step}: {nm}({b.hex()}) gives {got}, a strict decoder gives {want}"
@@ -618,10 +672,255 @@ def p_parse_history(encs):
     return None
 
 
-PROPS = {"int_points": p_int_points, "field_axioms": p_field_axioms, "small_curve": p_small_curve, "group_ids": p_group_ids,
+# ---- the library's own == / != (every other predicate compares coordinates), operands of different fields / curves,
+# half-defined points, exponent boundaries
+
+
+def _outcome(f):
+    """('ok', value) or ('raise', exception type name); the engine's watchdog exception passes through"""
+    try:
+        return ("ok", f())
+    except Exception as e:  # noqa
+        if type(e).__name__ == "ImplTimeout":
+            raise
+        return ("raise", type(e).__name__)
+
+
+def _eq_ne(u, v, want, what):
+    """u == v and u != v through the library's operators against the expected truth value"""
+    eq, ne = _outcome(lambda: u == v), _outcome(lambda: u != v)
+    if eq[0] != "ok" or ne[0] != "ok":
+        return f"{what}: == gives {eq}, != gives {ne} (expected {'equal' if want else 'different'})"
+    if not isinstance(eq[1], bool) or not isinstance(ne[1], bool):
+        return f"{what}: == / != return {eq[1]!r} / {ne[1]!r}, not truth values"
+    if eq[1] != want or ne[1] != (not want):
+        return f"{what}: == is {eq[1]}, != is {ne[1]}, expected {'equal' if want else 'different'}"
+    return None
+
+
+_FE_OPS = (("+", lambda u, v: u + v), ("-", lambda u, v: u - v), ("*", lambda u, v: u * v), ("/", lambda u, v: u / v))
+
+
+def p_fe_eq(p, q):
+    """FieldElement.__eq__ / __ne__: two separately built elements of F_p are equal iff their numbers are; an element
+    of F_p never equals an element of F_q (same number or not) nor None; + - * / across the two fields raise TypeError
+    and never return an element"""
+    E1, E2 = [FE(i, p) for i in range(p)], [FE(i, p) for i in range(p)]
+    for a in E1:
+        for b in E2:
+            bad = _eq_ne(a, b, a.num == b.num, f"FieldElement({a.num},{p}) vs FieldElement({b.num},{p})")
+            if bad:
+                return bad
+        for tag, other in (("None", None),):
+            bad = _eq_ne(a, other, False, f"FieldElement({a.num},{p}) vs {tag}")
+            if bad:
+                return bad
+    if q == p:
+        return None
+    F = [FE(i, q) for i in range(q)]
+    for a in E1:
+        for b in (F if p * q <= 2000 else [F[a.num % q], F[0], F[1], F[q - 1], F[(a.num * 7 + 3) % q]]):
+            for (u, v) in ((a, b), (b, a)):
+                what = f"FieldElement({u.num},{u.prime}) vs FieldElement({v.num},{v.prime})"
+                bad = _eq_ne(u, v, False, what)
+                if bad:
+                    return bad
+                for nm, op in _FE_OPS:
+                    got = _outcome(lambda: op(u, v))
+                    if got != ("raise", "TypeError"):
+                        return f"{what}: operator {nm} across two fields gives {got}, expected TypeError"
+    return None
+
+
+def p_fe_pow(p):
+    """FieldElement.__pow__ against repeated multiplication of integers: every a of F_p, every exponent in
+    [-2p-2, 3p+2] (0, 1, p-2, p-1, p, multiples of p-1, negatives) and some huge ones; a negative exponent of a != 0 is the
+    inverse of the positive power; 0 ** e = 0 for e > 0 and 0 ** 0 = 1"""
+    hi = 3 * p + 3
+    for a in range(p):
+        pw = [1 % p]
+        for _ in range(hi):
+            pw.append(pw[-1] * a % p)
+        e_ = FE(a, p)
+        for e in range(0, hi):
+            got = _outcome(lambda: (e_ ** e).num)
+            if got != ("ok", pw[e]):
+                return f"FieldElement({a},{p}) ** {e} gives {got}, repeated multiplication gives {pw[e]}"
+        if a:
+            for e in range(1, 2 * p + 3):
+                got = _outcome(lambda: (e_ ** -e).num)
+                if got[0] != "ok" or not 0 <= got[1] < p or got[1] * pw[e] % p != 1:
+                    return f"FieldElement({a},{p}) ** {-e} gives {got}, which is not the inverse of {a}^{e} = {pw[e]}"
+            per = p - 1
+            for e in (10 ** 20 + 3, (1 << 256) + 1, per * 10 ** 9, per * 10 ** 9 + 1, -(10 ** 20), -per * 10 ** 9):
+                got = _outcome(lambda: (e_ ** e).num)
+                if got != ("ok", pw[e % per]):
+                    return f"FieldElement({a},{p}) ** {e} gives {got}, expected {pw[e % per]}"
+        else:
+            for e in (10 ** 20 + 3, (p - 1) * 10 ** 9, (1 << 256)):
+                got = _outcome(lambda: (e_ ** e).num)
+                if got != ("ok", 0):
+                    return f"FieldElement(0,{p}) ** {e} gives {got}, expected 0"
+    return None
+
+
+def _gp(p, a, b, A):
+    """a fresh generic Point object (fresh coordinate and coefficient objects) for the reference point A"""
+    if A is None:
+        return Point(None, None, FE(a, p), FE(b, p))
+    return Point(FE(A[0], p), FE(A[1], p), FE(a, p), FE(b, p))
+
+
+def p_pt_eq_small(p, a, b):
+    """Point.__eq__ / __ne__ on y^2 = x^3 + a x + b over F_p: two separately built points are equal iff their
+    coordinates are (every pair: P vs -P shares x, (x,y) vs (x',y) shares y, point vs infinity); points of a curve
+    with another a and/or another b are never equal (same coordinates or both infinity included), and adding them —
+    in either order, infinity operands included — raises TypeError instead of returning a point"""
+    pts = ref_points(p, a, b)
+    o1 = {A: _gp(p, a, b, A) for A in pts}
+    o2 = {A: _gp(p, a, b, A) for A in pts}
+    for A in pts:
+        for B in pts:
+            bad = _eq_ne(o1[A], o2[B], A == B, f"F_{p} a={a} b={b}: {A} vs {B}")
+            if bad:
+                return bad
+    for (a2, b2) in (((a + 1) % p, b), (a, (b + 1) % p), ((a + 1) % p, (b + 1) % p), ((a + 2) % p, b), (a, (b - 1) % p)):
+        if (a2, b2) == (a, b):
+            continue
+        pts2 = ref_points(p, a2, b2)
+        shared = [A for A in pts2 if A in o1]          # same coordinates on both curves (infinity always; x = 0 ...)
+        sample2 = shared + [A for A in pts2 if A not in o1][:4]
+        sample1 = shared + [A for A in pts if A not in shared][:4]
+        for A in sample1:
+            for B in sample2:
+                u, v = o1[A], _gp(p, a2, b2, B)
+                for (s, t, S, T) in ((u, v, A, B), (v, u, B, A)):
+                    what = f"F_{p}: {S} of curve a={s.a.num} b={s.b.num} vs {T} of curve a={t.a.num} b={t.b.num}"
+                    bad = _eq_ne(s, t, False, what)
+                    if bad:
+                        return bad
+                    got = _outcome(lambda: _tup(s + t))
+                    if got != ("raise", "TypeError"):
+                        return f"{what}: + gives {got}, expected TypeError (different curves)"
+    return None
+
+
+def p_half_point(p, a, b):
+    """a point with exactly ONE coordinate None is not a point: the generic constructor (FieldElement and plain-int
+    coordinates) and S256Point must raise for (None, y) and (x, None), whatever x, y"""
+    fa, fb = FE(a, p), FE(b, p)
+    pts = ref_points(p, a, b)[1:]
+    cands = []
+    for v in list(range(p)):
+        cands.append((f"Point(None, FieldElement({v},{p}))", lambda v=v: Point(None, FE(v, p), fa, fb)))
+        cands.append((f"Point(FieldElement({v},{p}), None)", lambda v=v: Point(FE(v, p), None, fa, fb)))
+    for (x, y) in pts[:6] + [(-1, -1), (2, 5), (0, 0), (1, 0)]:
+        cands.append((f"Point(None, {y}) over the integers", lambda y=y: Point(None, y, 5, 7)))
+        cands.append((f"Point({x}, None) over the integers", lambda x=x: Point(x, None, 5, 7)))
+    for (x, y) in ((GX, GY), (GX, P - GY), (0, 0), (1, 1), (P - 1, 0)):
+        cands.append((f"S256Point(None, {y:#x})", lambda y=y: S256Point(None, y)))
+        cands.append((f"S256Point({x:#x}, None)", lambda x=x: S256Point(x, None)))
+        cands.append((f"S256Point(None, S256Field({y:#x}))", lambda y=y: S256Point(None, S256Field(y))))
+        cands.append((f"S256Point(S256Field({x:#x}), None)", lambda x=x: S256Point(S256Field(x), None)))
+    for what, f in cands:
+        got = _outcome(f)
+        if got[0] != "raise":
+            return f"{what} is accepted ({got[1]!r}, x={got[1].x!r}, y={got[1].y!r}); a half-defined point must be rejected"
+    return None
+
+
+def _beta():
+    """a primitive cube root of unity mod P (P = 1 mod 3): (beta*x, y) is on the curve whenever (x, y) is"""
+    g = 2
+    while True:
+        c = pow(g, (P - 1) // 3, P)
+        if c != 1:
+            return c
+        g += 1
+
+
+def p_s256_eq(k, j):
+    """S256Point.__eq__ / __ne__: for A = kG, B = jG (independent Jacobian reference) the objects built from A (ints,
+    S256Field objects), -A (same x), (beta*x, y) and (beta^2*x, y) (same y, beta^3 = 1), (beta*x, -y), B and infinity
+    (twice) are equal exactly when their coordinates are — every ordered pair, == and !="""
+    A, B = j_mul(k, (GX, GY)), j_mul(j, (GX, GY))
+    be = _beta()
+    items = [("inf", None, S256Point(None, None)), ("inf'", None, S256Point(None, None))]
+    coords = []
+    for nm, Q in (("A", A), ("B", B)):
+        if Q is None:
+            continue
+        x, y = Q
+        coords += [(nm, (x, y)), (nm + "'", (x, y)), ("-" + nm, (x, P - y)), ("beta*" + nm, (be * x % P, y)),
+                   ("beta^2*" + nm, (be * be * x % P, y)), ("-beta*" + nm, (be * x % P, P - y))]
+    for nm, Q in coords:
+        if not on_secp(Q):
+            return f"harness: {nm} is not on the curve"
+        items.append((nm, Q, S256Point(Q[0], Q[1])))
+    if A is not None:
+        items.append(("A (S256Field coordinates)", A, S256Point(S256Field(A[0]), S256Field(A[1]))))
+    for (n1, Q1, o1) in items:
+        for (n2, Q2, o2) in items:
+            bad = _eq_ne(o1, o2, Q1 == Q2, f"k={k} j={j}: {n1} vs {n2}")
+            if bad:
+                return bad
+    # the field elements themselves: S256Field against S256Field / a generic FieldElement of the same and of another prime
+    if A is not None:
+        x, y = A
+        for (u, v, want, what) in ((S256Field(x), S256Field(x), True, "S256Field(x) vs S256Field(x)"),
+                                   (S256Field(x), S256Field(y), x == y, "S256Field(x) vs S256Field(y)"),
+                                   (S256Field(x), FE(x, P), True, "S256Field(x) vs FieldElement(x, P)"),
+                                   (S256Field(x % N), FE(x % N, N), False, "S256Field(x) vs FieldElement(x, N)"),
+                                   (FE(x % N, N), S256Field(x % N), False, "FieldElement(x, N) vs S256Field(x)"),
+                                   (S256Field(x), None, False, "S256Field(x) vs None")):
+            bad = _eq_ne(u, v, want, what)
+            if bad:
+                return bad
+        for nm, op in _FE_OPS:
+            got = _outcome(lambda: op(S256Field(x % N), FE(y % N, N)))
+            if got != ("raise", "TypeError"):
+                return f"S256Field {nm} FieldElement of F_n gives {got}, expected TypeError"
+    return None
+
+
+def p_combine(ks):
+    """S256Point.combine(points) is the sum of the points (Jacobian reference), for lists with repeated, opposite and
+    infinity entries; the argument list and its points are left unchanged"""
+    tups = []
+    for k in ks:
+        tups.append(j_mul(abs(k), (GX, GY)) if k >= 0 else
+                    (lambda q: None if q is None else (q[0], P - q[1]))(j_mul(-k, (GX, GY))))
+    objs = [_sp(t) for t in tups]
+    acc = (1, 1, 0)
+    for t in tups:
+        acc = j_add(acc, j_of(t))
+    got = _outcome(lambda: _tup(S256Point.combine(objs)))
+    if got != ("ok", j_aff(acc)):
+        return f"combine of {len(ks)} points gives {got}, Jacobian reference {j_aff(acc)}"
+    if [_tup(o) for o in objs] != tups or len(objs) != len(ks):
+        return "combine changed its argument"
+    return None
+
+
+def p_privkey_point(secret):
+    """PrivateKey(secret).point is secret*G (Jacobian reference) for 1 <= secret <= n-1; a secret outside that range
+    is refused (it would give infinity or a second name for another key)"""
+    got = _outcome(lambda: _tup(pecc.PrivateKey(secret).point))
+    if 1 <= secret <= N - 1:
+        want = ("ok", j_mul(secret, (GX, GY)))
+        if got != want:
+            return f"PrivateKey({secret:#x}).point is {got}, the Jacobian reference gives {want[1]}"
+    elif got[0] != "raise":
+        return f"PrivateKey({secret:#x}) is accepted (point {got[1]}); valid secrets are 1..n-1"
+    return None
+
+
+PROPS = {"privkey_point": p_privkey_point, "int_points": p_int_points, "field_axioms": p_field_axioms, "small_curve": p_small_curve, "group_ids": p_group_ids,
          "point_laws": p_point_laws, "scalar": p_scalar, "sec_rt": p_sec_rt, "parse": p_parse,
          "double_y0": p_double_y0, "fe_reuse": p_fe_reuse, "pt_reuse_small": p_pt_reuse_small,
-         "s256_reuse": p_s256_reuse, "parse_history": p_parse_history}
+         "s256_reuse": p_s256_reuse, "parse_history": p_parse_history,
+         "fe_eq": p_fe_eq, "fe_pow": p_fe_pow, "pt_eq_small": p_pt_eq_small, "half_point": p_half_point,
+         "s256_eq": p_s256_eq, "combine": p_combine, "sec_rt_xy": p_sec_rt_xy}
 
 
 def classify(v):
@@ -636,7 +935,9 @@ def scalars_boundary():
     out = [0, 1, 2, 3, N - 2, N - 1, N, N + 1, N + 2, -1, -2, -N, -N - 1, -N + 1, 2 * N, 2 * N + 1, 2 * N - 1,
            (N - 1) // 2, (N + 1) // 2, 1 << 128, (1 << 128) - 1, (1 << 128) + 1, 1 << 255, (1 << 255) - 1,
            (1 << 255) + 1, 1 << 256, (1 << 256) - 1, (1 << 256) + 1, (1 << 256) + 12345, P, P - 1, P + 1,
-           (1 << 512) + 5, -(1 << 256), -(1 << 300) - 7]
+           (1 << 512) + 5, -(1 << 256), -(1 << 300) - 7,
+           # strictly between the group order n and the field prime p (a window of ~2^129 that random scalars miss)
+           N + (1 << 64), N + (P - N) // 2, P - 2, P - (1 << 32), N + 977, P + N, P - N]
     return out
 
 
@@ -662,10 +963,75 @@ def small_curve_params(p, r=None):
 
 
 def generate(ctx):
+    yield from _generate_eq(ctx)
     yield from _generate(ctx)
     for (x, y, a, b) in [(-1, -1, 5, 7), (-1, 1, 5, 7), (2, 5, 5, 7), (3, -7, 5, 7), (18, 77, 5, 7)]:
         yield ("prop", "int_points", [x, y, a, b])
     yield from _generate_reuse(ctx)
+
+
+def _generate_eq(ctx):
+    """the library's == / != on field elements and points, operands of different fields / curves, half-defined
+    points, exponent boundaries of FieldElement.__pow__, S256Point.combine"""
+    r = ctx.rng
+    thorough = ctx.tier == "thorough"
+    for (p, q) in [(2, 3), (3, 2), (5, 7), (7, 5), (11, 13), (13, 11), (31, 29), (29, 31), (5, 5)] + \
+                  ([(97, 101), (101, 97), (223, 229)] if thorough else [(43, 47)]):
+        ctx.label("eq/field-elements: same field, two fields, None")
+        yield ("prop", "fe_eq", [p, q])
+    for p in [2, 3, 5, 7, 11, 13, 17] + ([q for q in PRIMES if 17 < q <= 101] + [223] if thorough else [31, 43]):
+        ctx.label("field/pow exponent sweep 0, negative, >= p-1 (repeated multiplication)")
+        yield ("prop", "fe_pow", [p])
+    for p in [5, 7, 11, 13, 17, 19, 31, 43] + ([61, 67, 73, 97, 101] if thorough else []):
+        for (a, b) in [(0, 7 % p), (r.randrange(p), 4), (r.randrange(1, p), r.randrange(p))]:
+            pts = ref_points(p, a, b)[1:]
+            ctx.label("eq/point pairs sharing x only", sum(1 for A in pts for B in pts if A[0] == B[0] and A[1] != B[1]))
+            ctx.label("eq/point pairs sharing y only", sum(1 for A in pts for B in pts if A[1] == B[1] and A[0] != B[0]))
+            ctx.label("eq/points of two curves (a differs only, b differs only, both; same coordinates; infinity)")
+            yield ("prop", "pt_eq_small", [p, a, b])
+    for p in [5, 11, 13] + ([43, 101] if thorough else []):
+        ctx.label("constructor/exactly one coordinate None")
+        yield ("prop", "half_point", [p, 0, 7 % p])
+    for (k, j) in [(1, 2), (1, N - 1), (0, 5), (7, 7), (N - 2, 2)] + \
+                  [(r.randrange(1, N), r.randrange(1, N)) for _ in range(ctx.n(8, 60))]:
+        ctx.label("eq/secp points: equal, -P (same x), beta*P (same y), infinity")
+        yield ("prop", "s256_eq", [k, j])
+    # points whose encoding has a particular byte: walk k0*G, (k0+1)G, ... (one Jacobian addition each) until every class
+    # has been met (probability 1/256 per step and class)
+    classes = {"x with a leading zero byte": lambda x, y: x >> 248 == 0, "y with a leading zero byte": lambda x, y: y >> 248 == 0,
+               "x top byte 0x80": lambda x, y: x >> 248 == 0x80, "x top byte 0xff": lambda x, y: x >> 248 == 0xff,
+               "x low byte 0x00": lambda x, y: x & 0xff == 0, "y low byte 0x01": lambda x, y: y & 0xff == 1}
+    found = {}
+    acc, JG = j_of(j_mul(r.randrange(1, N), (GX, GY))), j_of((GX, GY))
+    for _ in range(6000):
+        if len(found) == len(classes):
+            break
+        acc = j_add(acc, JG)
+        Q = j_aff(acc)
+        for nm, f in classes.items():
+            if nm not in found and f(*Q):
+                found[nm] = Q
+    for nm, (x, y) in sorted(found.items()):
+        ctx.label("encoding/ground point: " + nm)
+        xb, yb = x.to_bytes(32, "big"), y.to_bytes(32, "big")
+        yield ("prop", "sec_rt_xy", [x, y])
+        yield ("prop", "scalar", [r.choice([2, 3, N - 1, rscalar(r)]), [x, y]])
+        for c in (0, 1):
+            yield ("corr", "s_sec", [SECP, [x, y], c])
+        yield ("corr", "s_xonly", [SECP, [x, y]])
+        for enc in (bytes([2 + (y & 1)]) + xb, bytes([3 - (y & 1)]) + xb, b"\x04" + xb + yb, xb):
+            yield ("corr", "s_parse", [SECP, enc])
+            yield ("prop", "parse", [enc])
+    for secret in [1, 2, 3, N - 1, N - 2, (N - 1) // 2, (N + 1) // 2, 1 << 255, 0, -1, N, N + 1, P, 1 << 256, -N + 1] + \
+                  [r.randrange(1, N) for _ in range(ctx.n(4, 40))]:
+        ctx.label("privkey/point of a secret (boundaries 0, 1, n-1, n)")
+        yield ("prop", "privkey_point", [secret])
+    k, j = r.randrange(1, N), r.randrange(1, N)
+    for ks in [[1], [1, -1], [1, 1], [k, j, -k], [0, k], [k, 0, 0, j], [k, k, k], [-k, 0, k], [0, 0], [0],
+               [1, 2, 3, 4, 5, 6, 7, 8]] + [[r.choice([0, 1, -1, k, -k, j, r.randrange(1, N)]) for _ in range(r.randrange(2, 7))]
+                                             for _ in range(ctx.n(5, 60))]:
+        ctx.label("combine/list of points")
+        yield ("prop", "combine", [ks])
 
 
 def _generate_reuse(ctx):
@@ -926,6 +1292,10 @@ def _generate(ctx):
         x += 1
     for (x, y, which) in tiny:
         ctx.label("parse/coordinate+p (tiny " + which + ")")
+        yield ("prop", "sec_rt_xy", [x, y])
+        yield ("corr", "s_sec", [SECP, [x, y], 1])
+        yield ("corr", "s_sec", [SECP, [x, y], 0])
+        yield ("corr", "s_xonly", [SECP, [x, y]])
         xs = [x, x + P] if x + P < (1 << 256) else [x]
         ys = [y, y + P] if y + P < (1 << 256) else [y]
         for xx in xs:
